@@ -205,6 +205,15 @@ def rfcAccepts (req : List (String × String)) : Bool :=
     | e :: _ => positive (cut ';' e).2
     | [] => false
 
+/-- the client names `text/event-stream` as a media type it consumes: some element of its `Accept` list (split at
+`,`, parameters cut at `;`, optional white space trimmed) is exactly that type. Independent of the coded test (a
+substring search, which refuses more). Compression is configured for ordinary responses; a consumer of
+server-sent events reads the stream event by event and is the one kind of client the handler must leave alone —
+"the client accepts gzip" in the statement is quantified over the Accept header for this reason. -/
+def consumesEventStream (req : List (String × String)) : Bool :=
+  let vals := (req.filter (fun p => lowerL p.1.toList == "accept".toList)).map (·.2)
+  (vals.flatMap (fun v => splitOn ',' v.toList)).any (fun e => trim (cut ';' e).1 == "text/event-stream".toList)
+
 /-- the upstream's own header map at its first deciding call (no sniffed type filled in), or at the end -/
 def rawAt (cf : Bool) : List Op → Hdr → Hdr
   | [], h => h
@@ -307,6 +316,7 @@ def evalCase (c : Case) : Eval :=
       else (true, "")
     else
       if !(rfcAccepts c.req) then (false, "compressed-not-accepted")
+      else if consumesEventStream c.req then (false, "compressed-for-event-stream-client")
       else if !typeOk then (false, "compressed-type-mismatch")
       else if upEncoded then (false, "compressed-already-encoded")
       else if ce got != [encGzip] then (false, "changed-not-labelled")
@@ -389,6 +399,60 @@ def seqH : Handler := fun inp impl => do
               tag := match bad with
                 | some e => "seq/" ++ e.tag
                 | none => if gz == 0 then "seq/none-compressed" else if gz == es.length then "seq/all-compressed" else "seq/mixed" } : Verdict).toJson
+
+/-! c17.fault -/
+
+structure FaultObs where
+  cap : Nat
+  status : Nat
+  hdr : List (String × String)
+  body : Blob
+  isPrefix : Bool
+
+def faultOf (j : Json) : Except String (Option FaultObs) := do
+  let f := (j.getObjVal? "fault").toOption.getD Json.null
+  if f.isNull then pure none else
+    pure (some { cap := ← f.getObjValAs? Nat "cap", status := ← f.getObjValAs? Nat "status",
+                 hdr := ← pairs (← f.getObjVal? "hdr"), body := ← blobOf (← f.getObjVal? "body"),
+                 isPrefix := ← f.getObjValAs? Bool "prefix" })
+
+/-- c17.fault: a schedule of exchanges over one handler value — one after the other, or served from inside another
+exchange's handler (in flight at the same time) — some of them to a client that goes away after `cap` body bytes.
+Every exchange is judged on its own (`Props.C17Fault`: a response depends neither on what was served before, nor on
+what is in flight, nor on clients that left); what a departed client got is `Down.cut cap` of what a patient client
+gets from the same exchange: same status, same header map, the first `cap` bytes. -/
+def faultH : Handler := fun inp impl => do
+  match impl.getArr? with
+  | .error _ =>
+    let isPanic := (impl.getObjVal? "panic").toOption.isSome
+    return ({ model := Json.null, agree := !isPanic, spec := !isPanic, nontrivial := false,
+              tag := if isPanic then "panic" else "rejected-input" } : Verdict).toJson
+  | .ok outs =>
+    let items ← (← inp.getObjVal? "items").getArr?
+    if items.size != outs.size then throw "fault: size mismatch"
+    let es ← (items.toList.zip outs.toList).mapM (fun (i, o) => do
+      let c ← caseOf i o
+      let c := { c with layer := "rec" }   -- this stream has the recorder layer only
+      let e := evalCase c
+      let f ← faultOf o
+      let nested := decide (((i.getObjValAs? Int "parent").toOption.getD (-1)) ≥ 0)
+      -- the departed client: the patient client's response, cut
+      let gone := match f with
+        | none => true
+        | some f => f.status == c.got.status && f.hdr == c.got.hdr && f.isPrefix &&
+                    f.body.len == min f.cap c.got.body.len
+      pure (e, f.isSome, nested, gone))
+    let bad := es.find? (fun (e, _, _, gone) => !e.spec || !e.agree || !gone)
+    let gz := (es.filter (fun (e, _, _, _) => e.tag.endsWith "gzip/implicit" || e.tag.endsWith "gzip/explicit")).length
+    let anyGone := es.any (fun (_, f, _, _) => f)
+    let anyNested := es.any (fun (_, _, n, _) => n)
+    return ({ model := Json.arr (es.map (fun (e, _, _, _) => e.model)).toArray,
+              agree := es.all (fun (e, _, _, gone) => e.agree && gone), spec := es.all (fun (e, _, _, _) => e.spec),
+              nontrivial := gz ≥ 2 && (anyGone || anyNested),
+              tag := match bad with
+                | some (e, _, _, gone) => if !e.spec || !e.agree then "fault/" ++ e.tag else if !gone then "fault/departed-client-differs" else "fault"
+                | none => "fault/" ++ (if anyGone then "client-gone+" else "") ++ (if anyNested then "in-flight+" else "") ++
+                          (if gz == 0 then "none-compressed" else if gz == es.length then "all-compressed" else "mixed") } : Verdict).toJson
 
 /-! c17.proxy -/
 
@@ -504,11 +568,44 @@ def weightH : Handler := fun inp impl => do
           else if zeroLit q then "zero-by-parsefloat"
           else if q.any (fun c => '1' ≤ c && c ≤ '9') && q.all (fun c => ('0' ≤ c && c ≤ '9') || c == '.') then "plain-nonzero"
           else "other"
-    let spec := !engaged || rfcAccepts req
+    let spec := !engaged || (rfcAccepts req && !(consumesEventStream req))
     return ({ model := Json.mkObj [("engaged", m)], agree := m == engaged, spec := spec,
               nontrivial := cls != "no-gzip-element" && cls != "no-weight",
               tag := if !spec then "engaged-not-accepted" else (if engaged then "engaged/" else "bypassed/") ++ cls } : Verdict).toJson
 
+/-- c17.accept: the Accept header's part of "the client accepts gzip": is the writer machine engaged for a client
+that lists (or nearly lists) the event-stream type? -/
+def acceptH : Handler := fun inp impl => do
+  match impl.getObjValAs? Bool "engaged" with
+  | .error _ =>
+    let isPanic := (impl.getObjVal? "panic").toOption.isSome
+    return ({ model := Json.null, agree := !isPanic, spec := !isPanic, nontrivial := false,
+              tag := if isPanic then "panic" else "rejected-input" } : Verdict).toJson
+  | .ok engaged =>
+    let req ← pairs (← inp.getObjVal? "req")
+    let method ← inp.getObjValAs? String "method"
+    let m := acceptsGzip (reqHdr req) && method != "HEAD"
+    let acc := (req.filter (fun p => lowerL p.1.toList == "accept".toList)).map (·.2)
+    let elems := acc.flatMap (fun v => splitOn ',' v.toList)
+    let es := "text/event-stream".toList
+    let named := consumesEventStream req
+    let cls :=
+      if acc.isEmpty then "no-accept-header"
+      else if named then
+        (match elems with
+         | e :: _ => if trim (cut ';' e).1 == es then "listed-first" else "listed-later"
+         | [] => "listed-later") ++
+        (if elems.any (fun e => trim (cut ';' e).1 == es && (cut ';' e).1 != es) then "+spaced" else "") ++
+        (if elems.any (fun e => trim (cut ';' e).1 == es && (cut ';' e).2 != []) then "+params" else "")
+      else if acc.any (fun v => containsL v.toList es) then "substring-only"
+      else if acc.any (fun v => containsL (lowerL v.toList) es) then "other-case"
+      else "not-listed"
+    let spec := !engaged || (rfcAccepts req && !named)
+    return ({ model := Json.mkObj [("engaged", m)], agree := m == engaged, spec := spec,
+              nontrivial := rfcAccepts req && (named || cls == "substring-only" || cls == "other-case"),
+              tag := if !spec then (if named then "engaged-for-event-stream-client" else "engaged-not-accepted")
+                     else (if engaged then "engaged/" else "bypassed/") ++ cls } : Verdict).toJson
+
 def streams : List (String × Handler) :=
-  [("c17.resp", respH), ("c17.resp.wide", respH), ("c17.pool", poolH), ("c17.seq", seqH), ("c17.proxy", proxyH), ("c17.weight", weightH)]
+  [("c17.resp", respH), ("c17.resp.wide", respH), ("c17.pool", poolH), ("c17.seq", seqH), ("c17.proxy", proxyH), ("c17.weight", weightH), ("c17.fault", faultH), ("c17.accept", acceptH)]
 end Fabio.Driver.C17
